@@ -1,5 +1,8 @@
 (* MulCostBankBig.v — C20: the larger bank shapes, evaluated by the kernel's VM.  SLOW (about
-   12 minutes): built by `make` / the thorough tier only; props/C20.v does not depend on it.
+   12 minutes): lives in coq/slow/, which is NOT part of _CoqProject; compiled by the thorough
+   tier of `./check C20` (tools/gen/c20.py) with
+     cd coq && coqc -noglob <-Q flags of _CoqProject> -Q slow BigNum slow/MulCostBankBig.v
+   props/C20.v does not depend on it.
    Balanced 1024 -> 2048 -> 4096 (doubling criterion, and cost(4096) < 4096^2/4), unbalanced
    1024 x 2047, 1024 x 2048 and 256 x 16384 (n x 64n). *)
 From BigNum Require Import Base AddSub Mul MulCost Extracted MulCostBank.
@@ -14,11 +17,9 @@ Definition big_pred (o1 o2 o3 o4 o5 o6 : outcome Z) : bool :=
   | _, _, _, _, _, _ => false
   end.
 
-Definition big_ok (p : mul_params) : bool :=
-  big_pred (bank_cost p 1024 1024) (bank_cost p 2048 2048) (bank_cost p 4096 4096)
-           (bank_cost p 1024 2047) (bank_cost p 1024 2048) (bank_cost p 256 16384).
-
-Lemma big_ok_true : big_ok mul = true.
+Lemma big_ok_true :
+  big_pred (bank_cost mul 1024 1024) (bank_cost mul 2048 2048) (bank_cost mul 4096 4096)
+           (bank_cost mul 1024 2047) (bank_cost mul 1024 2048) (bank_cost mul 256 16384) = true.
 Proof. vm_cast_no_check (@eq_refl bool true). Qed.
 
 Lemma big_pred_inv o1 o2 o3 o4 o5 o6 : big_pred o1 o2 o3 o4 o5 o6 = true ->
